@@ -105,15 +105,16 @@ theorem out_cs_uses_prescribed_width :
     (∀ k ∈ refine_returns, k = "identity" ∨ k = "segmentize") := by
   refine ⟨rfl, rfl, by decide⟩
 
-/-- shape of the helpers: a strip `|x| ≤ width/2` for two rolls; three times (keep `y ≤ width/2`, turn by 120°) for three -/
+/-- shape of the helpers: a strip `|x| ≤ width/2` for two rolls; three times (keep `y ≤ width/2`, turn by 120°) for three,
+    followed by the removal of vertices that coincide within a rounding-sized fraction `rel` of the perimeter -/
 theorem helpers_shape (lines : GT) (w : Expr) :
     out_cross_section lines w = .refine (.clipRect (.polygon lines) (.fin (.div (.neg w) (.nat 2))) .ninf (.fin (.div w (.nat 2))) .pinf) ∧
-    out_cross_section3 lines w =
-      .refine (.rotate (.clipRect (.rotate (.clipRect (.rotate (.clipRect (.polygon lines)
+    (∃ rel : Expr, out_cross_section3 lines w =
+      .refine (.dedupe (.rotate (.clipRect (.rotate (.clipRect (.rotate (.clipRect (.polygon lines)
         .ninf .ninf .pinf (.fin (.div w (.nat 2)))) (.nat 120))
         .ninf .ninf .pinf (.fin (.div w (.nat 2)))) (.nat 120))
-        .ninf .ninf .pinf (.fin (.div w (.nat 2)))) (.nat 120)) := by
-  exact ⟨rfl, rfl⟩
+        .ninf .ninf .pinf (.fin (.div w (.nat 2)))) (.nat 120)) rel)) := by
+  exact ⟨rfl, _, rfl⟩
 
 /-- giving the constructor the pass's `filling_ratio` instead of the width (two rolls: the pass's usable width is the
     groove's) resolves to the same width -/
